@@ -29,6 +29,33 @@ func runC03(c *Ctx) {
 			c.report("newfile-vs-decode", fmt.Sprintf("NewFile(%d) error=%v but Decode error=%v", t, nferr, cl.Ret.Err == 1), cl)
 		}
 	}
+	// 1b. a first file_id that does not carry the type field at all (or carries
+	// it as invalid): there is no file type, so no container - never an
+	// assumed default
+	for k := 0; k < 6; k++ {
+		arch := byte(k % 2)
+		s := newStream(12, false)
+		switch k / 2 {
+		case 0:
+			s.Def(0, arch, 0, []FieldDef{{1, 2, 0x84}}, nil) // manufacturer only
+			s.Data(0, wire(u16le(1), arch))
+		case 1:
+			s.Def(0, arch, 0, []FieldDef{{1, 2, 0x84}, {4, 4, 0x86}}, nil)
+			s.Data(0, append(wire(u16le(1), arch), wire(u32le(0x3B9ACA00), arch)...))
+		default:
+			s.Def(0, arch, 0, []FieldDef{{0, 1, 0}, {1, 2, 0x84}}, nil)
+			s.Data(0, append([]byte{0xFF}, wire(u16le(1), arch)...))
+		}
+		s.Def(1, arch, 20, []FieldDef{{3, 1, 2}}, nil)
+		s.Data(1, []byte{77})
+		id++
+		cl := p.runCall(id, "decode", s.Bytes(), plain, CallOpts{}, true)
+		cl.Note = fmt.Sprintf("first file_id without a (valid) type field, variant %d", k)
+		calls = append(calls, cl)
+		if cl.Ret.Err == 0 {
+			c.report("no-file-type-accepted", "Decode accepts a file whose first file_id carries no file type", cl)
+		}
+	}
 	// 2. every (file type, message type) arm: each known message twice plus
 	// unknown ones, in seeded interleavings
 	rounds := c.pick(4, 12)
